@@ -99,6 +99,15 @@ impl<'value, T: 'value> Stream<T> {
 
 impl<'value, T: 'value + Clone + fmt::Display> Stream<T> {
     pub(crate) fn add_value(&mut self, value: T, generation: Generation) -> ExecutionResult<()> {
+        // A generation number of previous or current values comes from the data. A stream holds fewer than
+        // STREAM_MAX_SIZE values, hence fewer generations; a larger number would only make the matrix
+        // allocate that many empty generations (or overflow on u32::MAX).
+        if let Generation::Previous(generation_idx) | Generation::Current(generation_idx) = generation {
+            if usize::from(generation_idx) >= STREAM_MAX_SIZE {
+                return Err(crate::execution_step::errors::UncatchableError::StreamSizeLimitExceeded.into());
+            }
+        }
+
         match generation {
             Generation::Previous(previous_gen) => self.previous_values.add_value_to_generation(value, previous_gen),
             Generation::Current(current_gen) => self.current_values.add_value_to_generation(value, current_gen),
